@@ -39,7 +39,11 @@ def gen_doc(rng):
 
     def col():
         ks = [leaf() for _ in range(rng.choice([0, 1, 1, 2, 3]))]
-        return ("[" + "; ".join(t for t, _ in ks) + "]", "<mj-column%s>%s</mj-column>" % (rng.choice(COL_ATTRS), "".join(m for _, m in ks)))
+        gutter = rng.random() < 0.25
+        attrs = rng.choice(COL_ATTRS) + (rng.choice([' padding="5px"', ' padding-left="10px"', ' padding="0 20px"']) if gutter else "")
+        if gutter:
+            tags.add("column-gutter")
+        return ("(%s, [%s])" % ("true" if gutter else "false", "; ".join(t for t, _ in ks)), "<mj-column%s>%s</mj-column>" % (attrs, "".join(m for _, m in ks)))
 
     def sec():
         if rng.random() < 0.7:
@@ -51,20 +55,31 @@ def gen_doc(rng):
         return ("Groups [%s]" % "; ".join("[" + "; ".join(c for c, _ in g) + "]" for g in gs),
                 "".join("<mj-group%s>%s</mj-group>" % (rng.choice(GROUP_ATTRS), "".join(m for _, m in g)) for g in gs))
 
+    def sect(extra=""):
+        c, m = sec()
+        bg = rng.random() < 0.25
+        if bg:
+            tags.add("background-url")
+        return ("(%s, %s)" % ("true" if bg else "false", c),
+                "<mj-section%s%s%s>%s</mj-section>" % (extra, rng.choice(SEC_ATTRS), ' background-url="https://x/b.png"' if bg else "", m))
+
     def block():
         x = rng.random()
-        if x < 0.5:
-            c, m = sec()
+        if x < 0.45:
+            c, m = sect()
             tags.add("plain-section")
-            return "Plain (%s)" % c, "<mj-section%s>%s</mj-section>" % (rng.choice(SEC_ATTRS), m)
-        if x < 0.7:
-            c, m = sec()
+            return "Plain %s" % c, m
+        if x < 0.62:
+            c, m = sect(' full-width="full-width"')
             tags.add("full-width-section")
-            return "FullWidth (%s)" % c, '<mj-section full-width="full-width"%s>%s</mj-section>' % (rng.choice(SEC_ATTRS), m)
-        ss = [sec() for _ in range(rng.choice([0, 1, 2, 3]))]
+            return "FullWidth %s" % c, m
+        if x < 0.75:
+            ks = [leaf() for _ in range(rng.choice([0, 1, 2, 3]))]
+            tags.add("hero")
+            return "Hero [%s]" % "; ".join(t for t, _ in ks), "<mj-hero%s>%s</mj-hero>" % (rng.choice(["", ' background-color="#222"', ' mode="fixed-height" height="300px"']), "".join(m for _, m in ks))
+        ss = [sect() for _ in range(rng.choice([0, 1, 2, 3]))]
         tags.add("wrapper:%d" % len(ss))
-        return ("Wrap [%s]" % "; ".join(c for c, _ in ss),
-                "<mj-wrapper%s>%s</mj-wrapper>" % (rng.choice(WRAP_ATTRS), "".join("<mj-section%s>%s</mj-section>" % (rng.choice(SEC_ATTRS), m) for _, m in ss)))
+        return ("Wrap [%s]" % "; ".join(c for c, _ in ss), "<mj-wrapper%s>%s</mj-wrapper>" % (rng.choice(WRAP_ATTRS), "".join(m for _, m in ss)))
     bs = [block() for _ in range(rng.choice([0, 1, 2, 3, 4, 5, 6]))]
     tags.add("blocks:%d" % len(bs))
     return "[%s]" % "; ".join(c for c, _ in bs), "<mjml><mj-body>%s</mj-body></mjml>" % "".join(m for _, m in bs), sorted(tags)
